@@ -1,6 +1,8 @@
 package definition
 
 import (
+	"maps"
+	"slices"
 	"strings"
 	"sync"
 
@@ -57,8 +59,9 @@ func (a *flowAssets) FindByName(name string) (flows.Flow, error) {
 	a.mutex.Lock()
 	defer a.mutex.Unlock()
 
-	for _, flow := range a.cache {
-		if strings.EqualFold(flow.Name(), name) {
+	// in UUID order so that the result doesn't depend on map iteration order if names differ only by case
+	for _, uuid := range slices.Sorted(maps.Keys(a.cache)) {
+		if flow := a.cache[uuid]; strings.EqualFold(flow.Name(), name) {
 			return flow, nil
 		}
 	}
